@@ -4,7 +4,6 @@ pub open spec fn absorb_points(log: Seq<TEvent>, label: Seq<u8>, pts: Seq<CP>) -
 {
    if pts.len() == 0 { log } else { absorb_points(log, label, pts.drop_last()).push(TEvent::Append(label, cp_bytes(pts.last()))) }
 }
-pub open spec fn promise_val(p: Option<u64>) -> u64 { match p { Some(v) => v, None => 0 } }
 pub open spec fn absorb_promises(log: Seq<TEvent>, ps: Seq<Option<u64>>) -> Seq<TEvent>
   decreases ps.len()
 {
